@@ -240,7 +240,7 @@ Charge(P, d, Z) ==
 (* EV.reset(): energy_delivered = 0 and Battery.reset(): charge back to the *)
 (* initial charge, charging power 0.                                        *)
 Reset ==
-    /\ AllowReset /\ nops < MaxOps /\ last \in {"charge", "resetto", "resetbad"}
+    /\ AllowReset /\ nops < MaxOps /\ last \in {"charge", "resetto", "resetbad", "roundtrip"}
     /\ lo' = bat.init /\ hi' = bat.init /\ base' = bat.init
     /\ eLo' = 0 /\ eHi' = 0 /\ dLo' = 0 /\ dHi' = 0 /\ pE' = 0 /\ mE' = 0
     /\ dec' = TRUE
@@ -273,6 +273,16 @@ ResetRefused ==
     /\ UNCHANGED <<bat, lo, hi, eLo, eHi, dLo, dHi, pE, mE, dec, tab, base>>
 DoResetTo == \E c \in ResetCharges : ResetTo(c)
 
+(* The battery - alone, and inside its EV at its station - is written to JSON and loaded back; the caller goes on  *)
+(* with the loaded objects.  Nothing changes: charge, last power, the EV's counter, and the charge a later reset() *)
+(* returns to (`base` is untouched, and Reset still goes to bat.init).                                               *)
+RoundTrip ==
+    /\ AllowReset /\ nops < MaxOps /\ last \in {"init", "charge", "reset", "resetto"}
+    /\ nops' = nops + 1 /\ last' = "roundtrip"
+    /\ hist' = Log([op |-> "roundtrip", lo |-> lo, hi |-> hi, eLo |-> eLo, eHi |-> eHi,
+                    dLo |-> dLo, dHi |-> dHi, dec |-> dec, tab |-> TabJson(tab)])
+    /\ UNCHANGED <<bat, lo, hi, eLo, eHi, dLo, dHi, pE, mE, dec, tab, base>>
+
 Finish ==
     /\ nops = MaxOps /\ last # "emitted"
     /\ IF Rec THEN PrintT(<<"BHV", ToJson([bat |-> bat, cap |-> CAP, k |-> K, ops |-> hist])>>)
@@ -283,7 +293,7 @@ Finish ==
 Terminated == last = "emitted" /\ UNCHANGED vars
 
 DoCharge == \E P \in Pilots, d \in Durs, Z \in (IF bat.noisy THEN Noises ELSE {0}) : Charge(P, d, Z)
-Next == DoCharge \/ Reset \/ DoResetTo \/ ResetRefused \/ Finish \/ Terminated
+Next == DoCharge \/ Reset \/ DoResetTo \/ ResetRefused \/ RoundTrip \/ Finish \/ Terminated
 
 Spec == Init /\ [][Next]_vars
 
@@ -297,7 +307,8 @@ SampleCharge ==
 SampleReset == RandomElement(1..4) = 1 /\ Reset
 SampleResetTo == RandomElement(1..6) = 1 /\ ResetTo(RandomElement(ResetCharges))
 SampleRefused == RandomElement(1..12) = 1 /\ ResetRefused
-SampleNext == SampleCharge \/ SampleReset \/ SampleResetTo \/ SampleRefused \/ Finish \/ Terminated
+SampleRoundTrip == RandomElement(1..6) = 1 /\ RoundTrip
+SampleNext == SampleCharge \/ SampleReset \/ SampleResetTo \/ SampleRefused \/ SampleRoundTrip \/ Finish \/ Terminated
 SampleSpec == Init /\ [][SampleNext]_vars
 
 -----------------------------------------------------------------------------
